@@ -14,3 +14,8 @@ if __name__ == "__main__":
         print("states", i, {m: rec.last_state(i, m) for m in mbworld.MACHINES})
     print([ (n,k,c.get('type'), c.get('phase')) for n,k,c in rec.world.cmdlog])
     print(rec.world.trace)
+    if len(sys.argv) > 2:
+        for n,k,m in rec.world.srvlog:
+            if m.get('type') != 'ack': print("SRV->", n, k, {a:b for a,b in m.items() if a not in ('server_tx','body')})
+        print("srv_exceptions", rec.world.srv_exceptions, "third", rec.third and rec.third.rx)
+        for s in rec.world.services: print(s.name, s.started, s.conn and s.conn.alive, s.conn and (len(s.conn.c2s), len(s.conn.s2c), s.conn.stopping))
